@@ -966,8 +966,14 @@ func failureOnly(mi *ssa.MakeInterface) bool {
 			}
 		case *ssa.Store:
 			// result cell of a function with defer / range-over-func: the error cell assigned in the same block decides
-			al, ok := r.Addr.(*ssa.Alloc)
-			if !ok {
+			// (in the body of a range-over-func loop the cell is a captured variable of the enclosing function)
+			switch a := r.Addr.(type) {
+			case *ssa.Alloc:
+			case *ssa.FreeVar:
+				if !isResultCellName(a.Parent(), a.Name()) {
+					return false
+				}
+			default:
 				return false
 			}
 			failed := false
@@ -976,7 +982,6 @@ func failureOnly(mi *ssa.MakeInterface) bool {
 					failed = true
 				}
 			}
-			_ = al
 			if !failed {
 				return false
 			}
@@ -1064,4 +1069,20 @@ func sumOfLens(v ssa.Value, ops []ssa.Value) bool {
 		}
 	}
 	return true
+}
+
+// isResultCellName: name is "" (the cell of an unnamed result) or the name of a result of an enclosing function.
+func isResultCellName(fn *ssa.Function, name string) bool {
+	if name == "" {
+		return true
+	}
+	for f := fn; f != nil; f = f.Parent() {
+		res := f.Signature.Results()
+		for i := 0; i < res.Len(); i++ {
+			if res.At(i).Name() == name {
+				return true
+			}
+		}
+	}
+	return false
 }
